@@ -1237,6 +1237,9 @@ func (ctx Ctx) indexExpr(e *ast.IndexExpr, isSpecial bool) coq.CallExpr {
 }
 
 func (ctx Ctx) derefExpr(e ast.Expr) coq.Expr {
+	if pt, ok := ctx.typeOf(e).Underlying().(*types.Pointer); ok && isSyncValue(pt.Elem()) {
+		ctx.unsupported(e, "copy of a %v", pt.Elem())
+	}
 	info, ok := ctx.getStructInfo(ctx.typeOf(e))
 	if ok && info.throughPointer {
 		return coq.NewCallExpr(coq.GallinaIdent("struct.load"),
@@ -1770,6 +1773,9 @@ func (ctx Ctx) assignFromTo(s ast.Node,
 			ctx.unsupported(s, "index update to unexpected target of type %v", targetTy)
 		}
 	case *ast.StarExpr:
+		if pt, ok := ctx.typeOf(lhs.X).Underlying().(*types.Pointer); ok && isSyncValue(pt.Elem()) {
+			ctx.unsupported(s, "assignment to a %v", pt.Elem())
+		}
 		info, ok := ctx.getStructInfo(ctx.typeOf(lhs.X))
 		if ok && info.throughPointer {
 			return coq.NewAnon(coq.NewCallExpr(coq.GallinaIdent("struct.store"),
@@ -1789,6 +1795,10 @@ func (ctx Ctx) assignFromTo(s ast.Node,
 		})
 	case *ast.SelectorExpr:
 		ty := ctx.typeOf(lhs.X)
+		if isCondVar(ty) || isLockRef(ty) || isWaitGroup(ty) {
+			// as for reading them (structSelector)
+			ctx.unsupported(s, "field %s of %v", lhs.Sel.Name, ty)
+		}
 		info, ok := ctx.getStructInfo(ty)
 		var structExpr coq.Expr
 		// TODO: this adjusts for pointer-wrapping in refExpr, but there should
